@@ -205,6 +205,30 @@ func (f *fields) tooExpensive() bool {
 	return false
 }
 
+// allocCap is the Go runtime's maxAlloc on 64-bit platforms (48 heap address bits). After its parameter
+// test scrypt.Key executes make([]uint32, 32*N*r); runtime.makeslice panics ("makeslice: len out of range")
+// when those 128*N*r bytes exceed it. Keystore/Prims.v: scrypt_alloc_ok.
+const allocCap = int64(1) << 48
+
+// beyondAllocCap: inside the library's parameter limits but the work area of scrypt.Key is larger than the
+// runtime can ever allocate, so the call panics at once without allocating anything (it is "just beyond
+// the cap" of the property's quantifier in the one direction that can be executed: at or just below the cap
+// the runtime would try to map up to 256 TiB and the process would die).
+func (f *fields) beyondAllocCap() bool {
+	if sv(f.kdf) != "scrypt" {
+		return false
+	}
+	n, r, p := iv(f.n), iv(f.r), iv(f.p)
+	// scryptParamsOK guarantees n <= maxInt/128/r: the product does not overflow
+	return scryptParamsOK(n, r, p) && 128*n*r > allocCap
+}
+
+// runsBeyondCap: a beyond-the-cap document the runner may execute: the first allocation of scrypt.Key
+// (xy, 256*r bytes) must be small, or the process would die in it before the panic of the second is reached.
+func (f *fields) runsBeyondCap() bool {
+	return f.beyondAllocCap() && iv(f.r) <= 1<<12
+}
+
 // lenientDK derives the 32-byte key from whatever parameters the file declares, ignoring dklen, prf and
 // every other field: the basis of "the MAC is valid for this password". c <= 0 follows the library
 // (treated like 1), so that a file can be MAC-valid and still declare a malformed iteration count.
